@@ -554,6 +554,8 @@ async fn handle_streaming_pull_request(
     // the deadline modifications). They belong together: if the stream goes away in between
     // (the client disconnects), the request would be half applied. Both are therefore done
     // by a task of their own, which runs to completion regardless of the stream.
+    #[cfg(deltio_verif)]
+    crate::verif::label(|| format!("stream-ctl:{}", subscription.name));
     tokio::spawn(async move {
         // Ack messages if appropriate.
         if !ack_ids.is_empty() {
